@@ -144,7 +144,8 @@ Fixpoint lex_smiles (fuel : nat) (s : str) : option (list stok) :=
     else if is_digit c then k (RRing (dval c)) r
     else if N.eqb c 37 then
       match r with
-      | d1 :: d2 :: r' => if is_digit d1 && is_digit d2
+      | d1 :: d2 :: r' => (* %nn with nn >= 10 only: readers disagree on %0n, such inputs are not judged *)
+                          if is_digit d1 && is_digit d2 && negb (N.eqb d1 48)
                           then k (RRing (dval d1 * 10 + dval d2)%N) r' else None
       | _ => None end
     else if N.eqb c 91 then
